@@ -6,6 +6,7 @@ import (
 	"net"
 	"reflect"
 	"sync"
+	"time"
 
 	"github.com/smallnest/rpcx/client"
 	"github.com/smallnest/rpcx/protocol"
@@ -42,6 +43,8 @@ type fakeScenario struct {
 	// per-dial behaviour (Failbackup tests): keyed by the dial sequence number of the client
 	perDial     map[int]fakeOutcome
 	gatesByDial map[int]chan struct{}
+	// closing a broken client takes this long (a TLS/kcp close, a lock held elsewhere)
+	slowClose time.Duration
 }
 
 var curScenario *fakeScenario
@@ -217,6 +220,9 @@ func (f *fakeClient) SendRaw(ctx context.Context, r *protocol.Message) (map[stri
 
 func (f *fakeClient) Connect(network, address string) error { return nil }
 func (f *fakeClient) Close() error {
+	if d := f.sc.slowClose; d > 0 {
+		time.Sleep(d)
+	}
 	f.mu.Lock()
 	f.dead = true
 	f.mu.Unlock()
